@@ -79,6 +79,8 @@ def strategy(tier):
             case["at"] = draw(st.integers(0, n - 1))
             case["at2"] = draw(st.integers(0, n - 1))
         case["fmt"] = draw(st.sampled_from(["csc", "csr", "coo"]))
+        # storage dtype of the matrix: scipy accepts integer-typed sparse matrices (the solvers convert them)
+        case["mdtype"] = draw(st.sampled_from(["float", "float", "float", "int64", "int32"]))
         case["rhs"] = [draw(st.integers(-16, 16)) / 8.0 for _ in range(n)]
         case["rhs_scale"] = draw(st.sampled_from([1e-3, 1.0, 1.0, 1e3]))
         case["trans"] = draw(st.booleans())
@@ -151,6 +153,11 @@ def check(case):
 
     n = case["n"]
     A = build_matrix(case)
+    mdtype = float
+    if case.get("mdtype", "float") != "float" and np.array_equal(A * 8.0, np.rint(A * 8.0)):
+        # all entries are multiples of 1/8: the matrix 8*A has integer entries and is stored with an integer dtype
+        A = A * 8.0
+        mdtype = np.dtype(case["mdtype"])
     symmetric = bool(np.array_equal(A, A.T))
     solver_name = case["solver"]
     labels = [f"kind:{case['kind']}", f"solver:{solver_name}", f"fmt:{case['fmt']}", f"trans:{case['trans']}", f"guess:{case['guess']}", f"n:{'1-2' if n < 3 else '3-20' if n <= 20 else '21+'}"]
@@ -162,7 +169,9 @@ def check(case):
         sv = np.linalg.svd(A, compute_uv=False)
         if sv[-1] <= 0 or sv[0] / sv[-1] > 1e3:
             return excluded("cond_gt_1e3", labels)
-    M = {"csc": sps.csc_matrix, "csr": sps.csr_matrix, "coo": sps.coo_matrix}[case["fmt"]](A)
+    M = {"csc": sps.csc_matrix, "csr": sps.csr_matrix, "coo": sps.coo_matrix}[case["fmt"]](A.astype(mdtype))
+    if mdtype is not float:
+        labels.append(f"matrix_dtype:{mdtype}")
     if singular and solver_name == "MINRES":
         return excluded("minres_singular_not_specified", labels)
     b = np.array(case["rhs"], dtype=float) * case["rhs_scale"]
